@@ -168,7 +168,7 @@ def run(chk):
 
     # ------------------------------------------------------------ drivers (larger signals, readers)
     out = dr.Result()
-    nd = 1500 if thorough else 240
+    nd = 1500 if thorough else 220
     drv_seed = chk.seed * 7919 + 1
     drnd = random.Random(drv_seed)
     scheds = ["synchronous", "threads", a_schedule(1), a_schedule(2), "synchronous", a_schedule(3)]
